@@ -124,7 +124,7 @@ func deepMergeValue(old, v any) (any, error) {
 }
 
 // checkDeferStream runs the stream automaton and returns the reconstructed data.
-func checkDeferStream(r *core.Run, prop string, x *fedExec, ctxMsg string, faults bool) (recon any, ok bool) {
+func checkDeferStream(r *core.Run, prop string, x *fedExec, ctxMsg string, faults bool, altWant string) (recon any, ok bool) {
 	frames := parseFrames(x.w.frames)
 	if x.w.buf.Len() > 0 {
 		r.Fail(prop, "stream", "unflushed", "bytes were written after the last flush: %s\n%s", x.w.buf.String(), ctxMsg)
@@ -227,6 +227,11 @@ func checkDeferStream(r *core.Run, prop string, x *fedExec, ctxMsg string, fault
 			var err error
 			recon, err = mergeAt(recon, full, m["data"])
 			if err != nil && !faults {
+				if altWant != "" && altReconstruct(x.w.frames, altWant, len(x.w.frames) > 2) {
+					// known finding (known_findings.json)
+					r.Fail(prop, "reconstruction", "pending-path-includes-first-item-subpath", "frame %d: incremental data for id %s cannot be applied at %v (%v); the payloads do reconstruct the non-deferred data when items with a subPath are read relative to a prefix of the announced pending path\n%s%s", i, id, full, err, dump(), ctxMsg)
+					return recon, false
+				}
 				r.Fail(prop, "reconstruction", "unmergeable", "frame %d: incremental data for id %s cannot be applied at %v: %v\n%s%s", i, id, full, err, dump(), ctxMsg)
 				return recon, false
 			}
@@ -298,6 +303,7 @@ func runFED10(r *core.Run) {
 		return
 	}
 	twin := e.summarize(execsT[0], nil)
+	twinRequests := len(e.reqs)
 	ref, merr := e.monolith(op, op.Stripped, nil)
 	if merr != nil {
 		r.HarnessError("reference failed: %v", merr)
@@ -355,7 +361,18 @@ func runFED10(r *core.Run) {
 			return
 		}
 	}
-	recon, ok := checkDeferStream(r, prop, x, ctxMsg+e.describe(), nFaults > 0)
+	if nFaults == 0 && !twin.hasErr {
+		// known finding (known_findings.json): fetches of a deferred group are missing from the plan
+		for _, fr := range x.w.frames {
+			if strings.Contains(fr, `"completed":[{"id"`) && strings.Contains(fr, "Cannot return null for non-nullable field") {
+				r.Fail(prop, "stream", "deferred-fetches-missing", "a deferred fragment is completed with a non-null error although no subgraph failed: the deferred run sent %d subgraph requests, the same operation without @defer (which succeeds without errors) %d; fetches of the deferred group are missing\nframes:\n  %s\n%s%s", len(e.reqs), twinRequests, strings.Join(x.w.frames, "\n  "), ctxMsg, e.describe())
+				cancel()
+				r.Drain(50)
+				return
+			}
+		}
+	}
+	recon, ok := checkDeferStream(r, prop, x, ctxMsg+e.describe(), nFaults > 0, twin.data)
 	if len(x.w.frames) >= 3 {
 		r.Probe("three_or_more_frames")
 	}
@@ -369,6 +386,17 @@ func runFED10(r *core.Run) {
 			// known finding (known_findings.json): with overlapping defers a field selected under a
 			// path that an earlier defer already delivered is fetched but left out of the frame
 			r.Fail(prop, "reconstruction", "keys-missing-with-overlapping-defers", "fields fetched for a deferred fragment are missing from its incremental payload (all delivered values are right)\n%sreconstructed: %s\nwithout defer: %s\nframes:\n  %s\n%s", ctxMsg, got, twin.data, strings.Join(x.w.frames, "\n  "), e.describe())
+		} else if got != twin.data && len(x.w.frames) == 1 && onlyKeysMissing(rcv, twv) {
+			// known finding: same root cause as pending-path-includes-first-item-subpath — the anchor of
+			// the fragment is taken to be its first nested object; when that is null the fragment is
+			// pruned as dead and never announced, although other deferred fields have live parents
+			r.Fail(prop, "stream", "fragment-pruned-when-first-nested-object-null", "a deferred fragment was neither announced nor delivered although its mount point is alive\n%sdelivered:     %s\nwithout defer: %s\nframes:\n  %s\n%s", ctxMsg, got, twin.data, strings.Join(x.w.frames, "\n  "), e.describe())
+		} else if got != twin.data && (isNulling(rcv, twv) || (strings.Count(op.Query, "@defer") >= 2 && isNullingOrMissing(rcv, twv))) {
+			// same known finding as the non-null flavour above: the fields are nullable, so the missing
+			// fetch shows as a silent null instead of a completed-with-error fragment
+			r.Fail(prop, "stream", "deferred-fetches-missing", "deferred fields are delivered as null although no subgraph failed and the same operation without @defer returns values (the deferred run sent %d subgraph requests, the twin %d): fetches of the deferred group are missing\n%sreconstructed: %s\nwithout defer: %s\nframes:\n  %s\n%s", len(e.reqs), twinRequests, ctxMsg, got, twin.data, strings.Join(x.w.frames, "\n  "), e.describe())
+		} else if got != twin.data && altReconstruct(x.w.frames, twin.data, strings.Count(op.Query, "@defer") >= 2) {
+			r.Fail(prop, "reconstruction", "pending-path-includes-first-item-subpath", "the payloads reconstruct the non-deferred data only when items with a subPath are read relative to a prefix of the announced pending path\n%sframes:\n  %s\n%s", ctxMsg, strings.Join(x.w.frames, "\n  "), e.describe())
 		} else if got != twin.data {
 			r.Fail(prop, "reconstruction", "twin", "applying the incremental payloads to the initial data does not give the data of the same operation without @defer\n%sreconstructed: %s\nwithout defer: %s\nframes:\n  %s\n%s", ctxMsg, got, twin.data, strings.Join(x.w.frames, "\n  "), e.describe())
 		} else if got != want {
@@ -464,4 +492,111 @@ func onlyKeysMissing(f, f0 any) bool {
 		return true
 	}
 	return canonValue(f) == canonValue(f0)
+}
+
+// altReconstruct re-reads the stream under the hypothesis of the known finding
+// "pending-path-includes-first-item-subpath": the announced pending path of a fragment is its mount
+// point plus the sub path of its first incremental item, while other items' subPath may be relative
+// to the real mount point (a proper prefix of the announced path). It searches for an assignment of
+// prefixes under which the payloads reconstruct want; used reports that at least one item needed a
+// proper prefix.
+func altReconstruct(frames []string, want string, loose bool) (ok bool) {
+	fs := parseFrames(frames)
+	if len(fs) == 0 || !fs[0].okay {
+		return false
+	}
+	type item struct {
+		path []any
+		sub  []any
+		data any
+	}
+	var items []item
+	paths := map[string][]any{}
+	note := func(f deferFrame) {
+		l, _ := f.obj["pending"].([]any)
+		for _, it := range l {
+			m, _ := it.(map[string]any)
+			id, _ := m["id"].(string)
+			p, _ := m["path"].([]any)
+			paths[id] = p
+		}
+	}
+	note(fs[0])
+	for _, f := range fs[1:] {
+		if !f.okay {
+			return false
+		}
+		inc, _ := f.obj["incremental"].([]any)
+		for _, it := range inc {
+			m, _ := it.(map[string]any)
+			id, _ := m["id"].(string)
+			P, ok := paths[id]
+			if !ok {
+				return false
+			}
+			sub, _ := m["subPath"].([]any)
+			items = append(items, item{path: P, sub: sub, data: m["data"]})
+		}
+		note(f)
+	}
+	budget := 4000
+	var rec func(i int, cur any, used bool) bool
+	rec = func(i int, cur any, used bool) bool {
+		if budget <= 0 {
+			return false
+		}
+		if i == len(items) {
+			budget--
+			if !used {
+				return false
+			}
+			if canonValue(cur) == want {
+				return true
+			}
+			if loose {
+				// several known defer findings can coincide when defers overlap
+				var w any
+				_ = json.Unmarshal([]byte(want), &w)
+				var c any
+				_ = json.Unmarshal([]byte(canonValue(cur)), &c)
+				return isNullingOrMissing(c, w)
+			}
+			return false
+		}
+		it := items[i]
+		lo := len(it.path)
+		if len(it.sub) > 0 {
+			lo = 0
+		}
+		for k := len(it.path); k >= lo; k-- {
+			full := append(append([]any{}, it.path[:k]...), it.sub...)
+			n, err := mergeAt(deepCopyJSON(cur), full, it.data)
+			if err != nil {
+				continue
+			}
+			if rec(i+1, n, used || k < len(it.path)) {
+				return true
+			}
+		}
+		return false
+	}
+	return rec(0, fs[0].obj["data"], false)
+}
+
+func deepCopyJSON(v any) any {
+	switch x := v.(type) {
+	case map[string]any:
+		m := make(map[string]any, len(x))
+		for k, e := range x {
+			m[k] = deepCopyJSON(e)
+		}
+		return m
+	case []any:
+		l := make([]any, len(x))
+		for i, e := range x {
+			l[i] = deepCopyJSON(e)
+		}
+		return l
+	}
+	return v
 }
